@@ -185,11 +185,15 @@ func C12GenMsg(t *rapid.T, label string) C12Msg {
 type C12Entropy struct {
 	Bytes Hex `json:"bytes"`
 	Chunk int `json:"chunk"`
+	// EOFData: the read that delivers the last byte returns io.EOF together
+	// with the data (allowed by the io.Reader contract; io.ReadFull copes).
+	EOFData bool `json:"eof_data,omitempty"`
 }
 
 type c12Reader struct {
-	b     []byte
-	chunk int
+	b       []byte
+	chunk   int
+	eofData bool
 }
 
 func (r *c12Reader) Read(p []byte) (int, error) {
@@ -205,17 +209,21 @@ func (r *c12Reader) Read(p []byte) (int, error) {
 	}
 	copy(p, r.b[:n])
 	r.b = r.b[n:]
+	if r.eofData && len(r.b) == 0 {
+		return n, io.EOF
+	}
 	return n, nil
 }
 
 // Reader returns a fresh reader over the bytes.
 func (e C12Entropy) Reader() io.Reader {
-	return &c12Reader{b: append([]byte(nil), e.Bytes...), chunk: e.Chunk}
+	return &c12Reader{b: append([]byte(nil), e.Bytes...), chunk: e.Chunk, eofData: e.EOFData}
 }
 
 // C12GenEntropy draws 32 bytes of signing entropy.
 func C12GenEntropy(t *rapid.T, label string) C12Entropy {
-	return C12Entropy{Bytes: c12Fill(t, 32, label), Chunk: rapid.SampledFrom([]int{0, 0, 0, 1, 7, 31, 32}).Draw(t, label+"_chunk")}
+	return C12Entropy{Bytes: c12Fill(t, 32, label), Chunk: rapid.SampledFrom([]int{0, 0, 0, 1, 7, 31, 32}).Draw(t, label+"_chunk"),
+		EOFData: rapid.IntRange(0, 3).Draw(t, label+"_eofdata") == 0}
 }
 
 // ---------------------------------------------------------------- signed entries and their mutations
